@@ -19,12 +19,13 @@
    A SECOND proved fragment (Compile/ClosFrag.v .. ClosTop.v, `in_fragment2`, pinned as C07_closure_programs_correct_partial
    in Props/C07.v) covers first-class function values: function literals inside functions and blocks (factories), `modify`
    writes through captured cells, functions returned / stored / passed as arguments and called through variables -- with
-   the statements assignment, modify, print, expression statement, if, if / else, while, from (named fresh counter, step 1),
-   return; expressions with calls anywhere (operands of arithmetic, comparisons, && || !, `(a) or b`, `get a`, arguments)
-   and `self(..)` (pinned for the programs of C15 / C12 in Props/C15.v, Props/C12.v).
+   the statements assignment, modify, op-assignment (on a local or THROUGH a captured cell), print, assert, expression
+   statement, if, if / else, else-if chains, while, from (named fresh counter, step 1), break, continue (through any nesting
+   of ifs), return with and without a value; expressions with calls anywhere (operands of arithmetic, comparisons, && || !,
+   `(a) or b`, `get a`, arguments) and `self(..)` (pinned for the programs of C15 / C12 in Props/C15.v, Props/C12.v).
    `in_fragment` = in_fragment1 || in_fragment2; fragment_correct holds on both.
-   NOT yet proved: calls in the upper bound of a from loop with a NAMED counter or in a step; break / continue /
-   op-assignment / assert / anonymous or colliding loop counters TOGETHER WITH the closure features of fragment 2.
+   NOT yet proved: calls in the upper bound of a from loop with a NAMED counter or in a step; anonymous, colliding or stepped
+   loop counters and calls in loop bounds TOGETHER WITH the closure features of fragment 2.
    Those are covered by the T1/T2/T3 correspondences on every run.
 
    What else is proved and pinned here:
@@ -35,7 +36,7 @@
    The statement-level agreement is established on every run by the correspondences T1 (compiler ==
    Compile/Compile.v), T2 (interpreter == Vm/Model.v, per instruction) and T3 (run == Lang/Eval.v). *)
 From MS Require Import Vm.Model Verify.Check Verify.Sound Compile.Compile Lang.Eval Compile.ExprBase Compile.ExprSim.
-From MS Require Import Compile.StmtMach Compile.StmtRel Compile.StmtFrag Compile.StmtSim Compile.StmtFun Compile.StmtMod Compile.StmtExamples Compile.StmtFragB Compile.ClosTop.
+From MS Require Import Compile.StmtMach Compile.StmtRel Compile.StmtFrag Compile.StmtSim Compile.StmtFun Compile.StmtMod Compile.StmtExamples Compile.StmtFragB Compile.ClosTop Compile.ClosExamples2.
 
 Check frames_safe.
 Theorem C01_frames_balanced_partial : forall rc p, checked p ->
@@ -140,13 +141,22 @@ Check in_fragment_sound. Check closure_module_correct.
 Example C01_nv_in_fragment : in_fragment nvp nv_s6 = true /\ in_fragment nvp nv_s4 = true /\ in_fragment nvp nv_s1f = true /\
   in_fragment nvp nv_s7 = true /\ in_fragment nvp nv_s8 = true /\ in_fragment nvp nv_s9 = true /\ in_fragment nvp nv_s10 = true.
 Proof. vm_compute. repeat split. Qed.
-(* ... and it rejects what is outside both proved fragments: `break` (fragment 1 only) in a function that also writes through
-   a captured variable (fragment 2 only) *)
+(* ... and it rejects what is outside both proved fragments: the VALUE of a function that returns nothing is used (the
+   function writes through a captured variable: fragment 2 only, whose kind discipline gives its result the kind "maybe no
+   value") *)
 Example C01_nv_not_in_fragment :
   in_fragment nvp [SAssign [120%N] (EInt 1);
-                   SAssign [102%N] (EFn [] [SModify [120%N] (EInt 2); SWhile (EBool true) [SBreak]; SReturn (Some (EVar [120%N]))]);
+                   SAssign [102%N] (EFn [] [SModify [120%N] (EInt 2)]);
                    SPrint (ECall (EVar [102%N]) [])] = false.
 Proof. vm_compute. reflexivity. Qed.
+(* `break` in a function that also writes through a captured variable is inside (fragment 2) *)
+Example C01_nv_break_modify_in_fragment :
+  in_fragment nvp [SAssign [120%N] (EInt 1);
+                   SAssign [102%N] (EFn [] [SModify [120%N] (EInt 2); SWhile (EBool true) [SBreak]; SReturn (Some (EVar [120%N]))]);
+                   SPrint (ECall (EVar [102%N]) [])] = true.
+Proof. vm_compute. reflexivity. Qed.
+(* the features of the two fragments mixed in one function: closure + modify + break / continue / else-if / assert / op-assignment *)
+Check C01_nv_mixed_program.
 (* a write through a captured variable alone is inside (fragment 2) *)
 Example C01_nv_modify_in_fragment :
   in_fragment nvp [SAssign [120%N] (EInt 1); SAssign [102%N] (EFn [] [SModify [120%N] (EInt 2); SReturn (Some (EVar [120%N]))]); SPrint (ECall (EVar [102%N]) [])] = true.
